@@ -86,6 +86,14 @@ def _hextet(e):
     return e
 
 
+def make_post(tier):
+    def post(work, V, cases, obs):
+        from .. import mechbind
+        info = mechbind.drop_zeros(work, V, tier)
+        return {'mech_model_checks': info, 'states': sum(m['distinct_states'] for m in info), 'transitions': sum(m['distinct_states'] for m in info)}
+    return post
+
+
 def run(tier):
     return flow.run_standard(
         PROP, tier, gens=[{'module': 'Gen_SeqEntities', 'cfg': 'Gen_SeqEntities_%s.cfg' % tier}],
@@ -94,7 +102,7 @@ def run(tier):
         rule='cases = terminal states of Gen_SeqEntities (%s): IPv4 products of boundary octets with and without leading zeros, near misses; IPv6 base patterns x every zero-run placement '
              'x padding x letter case, full and compressed; GUIDs x 4 layouts; e-mail / URL (15 TLDs) / hashtag / mention / phone grammars; x carriers; plus seeded random IPv4 / IPv6 addresses; '
              'replayed into the recognize_* functions; TLC recomputes the address denoted by text and value (expansion of "::" in TLA+) (Trace_SeqEntities)' % tier,
-        assumptions=common.STD_ASSUMPTIONS, exhaustive=False)
+        assumptions=common.STD_ASSUMPTIONS, exhaustive=False, post=make_post(tier))
 
 
 def replay(path):
